@@ -125,24 +125,28 @@ impl FaultCtl {
 fn jwk_err() -> KeyStorageError {
   // every error kind a backend may answer with, including the ones that read like a verdict about the key ("not
   // found" from an eventually consistent backend): a failed call is a failed call
-  let kind = match ctx::choose(6) {
+  let kind = match ctx::choose(8) {
     0 => KeyStorageErrorKind::RetryableIOFailure,
     1 => KeyStorageErrorKind::Unavailable,
     2 => KeyStorageErrorKind::Unauthenticated,
     3 => KeyStorageErrorKind::KeyNotFound,
     4 => KeyStorageErrorKind::Unspecified,
+    6 => KeyStorageErrorKind::KeyAlgorithmMismatch,
+    7 => KeyStorageErrorKind::UnsupportedKeyType,
     _ => KeyStorageErrorKind::SerializationError,
   };
   KeyStorageError::new(kind).with_custom_message("injected by simulator")
 }
 
 fn kid_err() -> KeyIdStorageError {
-  let kind = match ctx::choose(6) {
+  let kind = match ctx::choose(7) {
     0 => KeyIdStorageErrorKind::RetryableIOFailure,
     1 => KeyIdStorageErrorKind::Unavailable,
     2 => KeyIdStorageErrorKind::Unauthenticated,
     3 => KeyIdStorageErrorKind::KeyIdNotFound,
     4 => KeyIdStorageErrorKind::Unspecified,
+    // ("already exists" from a backend that answers from a stale replica: the call failed, nothing was written)
+    6 => KeyIdStorageErrorKind::KeyIdAlreadyExists,
     _ => KeyIdStorageErrorKind::SerializationError,
   };
   KeyIdStorageError::new(kind).with_custom_message("injected by simulator")
